@@ -1,7 +1,7 @@
 """C02 — Integer operators follow 16-bit two's-complement semantics."""
 import struct
 
-from vlib import basic
+from vlib import basic, translated
 
 LEVEL = 'proof'
 RULE = ('operand pairs from a boundary set (powers of two +-1, byte-carry 255/256, sign boundaries) crossed with '
@@ -9,8 +9,15 @@ RULE = ('operand pairs from a boundary set (powers of two +-1, byte-carry 255/25
         'FOR loops with start/stop/step near the limits run through the real interpreter')
 EXPLANATION = ('theorems: iadd/isub/ineg/iabs/idiv/imod/bitwise/gt/eq specs over all 16-bit patterns '
                '(PcbV.Props.C02); correspondence: Integer methods, values.* operators and Session-level '
-               'PRINT / FOR compared with the Lean model; oracle: Python int two\'s-complement arithmetic')
-TRUSTED_BASE = ['model PcbV.Model.IntOps is a hand transcription of numbers.py:Integer and values.py bitwise operators']
+               'PRINT / FOR compared with the Lean model; oracle: Python int two\'s-complement arithmetic'
+               '; source tie: the arithmetic of Integer.idiv_int / imod behind the zero test is translated '
+               'mechanically from the current Python AST into PcbV.Gen.Translated.idivCore / imodCore '
+               '(gen/py2lean.py), proved equal to the model (translated_idiv_eq, translated_imod_eq) and compared '
+               'with the real methods (vlib/translated.py)')
+TRUSTED_BASE = ['model PcbV.Model.IntOps is a hand transcription of numbers.py:Integer and values.py bitwise operators',
+                'translator gen/py2lean.py + PcbV.PyInt (Python int semantics of // % abs and ^ & | in Lean), validated by '
+                'vlib/translated.py against the real idiv_int / imod and Python\'s own operators; it covers these two '
+                'methods only']
 ASSUMPTIONS = ['struct.pack/unpack <h/<H behave as documented']
 
 
@@ -278,6 +285,7 @@ def basic_level(ctx, n_expr, n_for):
 
 
 def run(ctx):
+    translated.check_intdiv(ctx)
     impl = Impl()
     rng = ctx.rng
     bv = boundary_values()
